@@ -279,7 +279,8 @@ func keyName(k *cnode) string {
 	return k.kindName()
 }
 
-// walk lists every node with its path. Arrays longer than maxArr are sampled (first, second, last).
+// walk lists every node with its path. Arrays longer than maxArr (and maps with more than 16 entries) are sampled
+// (first, second, last).
 func (nd *cnode) walk(path string, parent *cnode, idx int, maxArr int, out *[]cpath) {
 	*out = append(*out, cpath{path, nd, parent, idx})
 	switch {
@@ -303,7 +304,9 @@ func (nd *cnode) walk(path string, parent *cnode, idx int, maxArr int, out *[]cp
 		}
 		sort.SliceStable(l, func(a, b int) bool { return l[a].name < l[b].name })
 		for j, e := range l {
-			if n > maxArr && !(j < 2 || j == n-1) {
+			// a map is a struct (every field is a path of its own) or a small table keyed by party: only tables with
+			// more than 16 entries are sampled
+			if n > 16 && n > maxArr && !(j < 2 || j == n-1) {
 				continue
 			}
 			nd.kids[e.i].walk(path+"."+e.name, nd, e.i, maxArr, out)
@@ -316,7 +319,7 @@ func (nd *cnode) walk(path string, parent *cnode, idx int, maxArr int, out *[]cp
 // ---- malformations ---------------------------------------------------------------------------------
 
 var malformations = []string{"absent", "null", "type-uint", "type-array", "type-tstr", "empty", "zero", "negative",
-	"oversize-2^32", "oversize-2^63", "len-prefix-2^32", "len-prefix+1", "truncated-half", "truncated-1", "extended",
+	"oversize-2^32", "oversize-2^63", "uint+1", "uint+2", "len-prefix-2^32", "len-prefix+1", "truncated-half", "truncated-1", "extended",
 	"inner-count-2^32", "inner-count-2^27", "inner-count-0", "inner-count+1", "dup-last", "drop-last", "copy-sibling", "bitflip", "all-ff"}
 
 // applyMalformation mutates the tree in place (call it on a clone); false = not applicable to this node.
@@ -401,6 +404,15 @@ func applyMalformation(p cpath, kind string) bool {
 			return false
 		}
 		return replace(&cnode{major: 1, arg: nd.arg})
+	case "uint+1", "uint+2": // a count / threshold moved to the next values (t -> n-1, n, ...)
+		if nd.major != 0 {
+			return false
+		}
+		add := uint64(1)
+		if kind == "uint+2" {
+			add = 2
+		}
+		return replace(&cnode{major: 0, arg: nd.arg + add})
 	case "oversize-2^32":
 		if nd.major != 0 && nd.major != 1 {
 			return false
